@@ -270,6 +270,7 @@ func ruleC19(prog *Program, rep *Report) {
 	ruleDirectConversion(prog, rep)
 	ruleMatchNoLen(prog, rep)
 	ruleOkDrop(prog, rep, "alt")
+	ruleOperandOrder(prog, rep, "alt")
 }
 
 func isLenCall(e ast.Expr) bool {
